@@ -2,6 +2,7 @@ package gen
 
 import (
 	"encoding/hex"
+	"encoding/json"
 	"fmt"
 	"net/url"
 	"strings"
@@ -99,6 +100,12 @@ func (d *TcbInfoDoc) hx(b []byte) string {
 	return s
 }
 
+// js renders a string as a JSON string literal (control and non-ASCII characters escaped the JSON way).
+func js(v string) string {
+	b, _ := json.Marshal(v)
+	return string(b)
+}
+
 func ts(t time.Time) string { return t.UTC().Format("2006-01-02T15:04:05Z") }
 
 func comps(v [16]byte) string {
@@ -117,15 +124,15 @@ func comps(v [16]byte) string {
 // Render returns the canonical JSON of the tcbInfo member.
 func (d *TcbInfoDoc) Render() []byte {
 	var sb strings.Builder
-	fmt.Fprintf(&sb, `{"id":%q,"version":%d,"issueDate":%q,"nextUpdate":%q,"fmspc":%q,"pceId":%q,"tcbType":0,"tcbEvaluationDataNumber":17,`,
-		d.ID, d.Version, ts(d.IssueDate), ts(d.NextUpdate), d.Fmspc, d.PceID)
+	fmt.Fprintf(&sb, `{"id":%s,"version":%d,"issueDate":%q,"nextUpdate":%q,"fmspc":%s,"pceId":%s,"tcbType":0,"tcbEvaluationDataNumber":17,`,
+		js(d.ID), d.Version, ts(d.IssueDate), ts(d.NextUpdate), js(d.Fmspc), js(d.PceID))
 	fmt.Fprintf(&sb, `"tdxModule":{"mrsigner":%q,"attributes":%q,"attributesMask":%q},`, d.hx(d.Mrsigner), d.hx(d.Attributes), d.hx(d.Mask))
 	sb.WriteString(`"tdxModuleIdentities":[`)
 	for i, m := range d.Identities {
 		if i > 0 {
 			sb.WriteString(",")
 		}
-		fmt.Fprintf(&sb, `{"id":%q,"mrsigner":%q,"attributes":%q,"attributesMask":%q,"tcbLevels":[`, m.ID, d.hx(m.Mrsigner), d.hx(m.Attributes), d.hx(m.Mask))
+		fmt.Fprintf(&sb, `{"id":%s,"mrsigner":%q,"attributes":%q,"attributesMask":%q,"tcbLevels":[`, js(m.ID), d.hx(m.Mrsigner), d.hx(m.Attributes), d.hx(m.Mask))
 		for j, l := range m.Levels {
 			if j > 0 {
 				sb.WriteString(",")
@@ -163,7 +170,8 @@ func dateOr(d string) string {
 
 // LevelDates are tcbDate values in deliberately non-monotonic order (the order of the level list,
 // not the dates, decides which level is selected).
-var LevelDates = []string{"2022-11-09T00:00:00Z", "2024-03-13T00:00:00Z", "2023-08-09T00:00:00Z", "2021-01-01T00:00:00Z", "2025-05-14T00:00:00Z", ""}
+// Some lie after every time the harness judges at (a level's date says when Intel assessed it, not from when it counts).
+var LevelDates = []string{"2022-11-09T00:00:00Z", "2024-03-13T00:00:00Z", "2023-08-09T00:00:00Z", "2021-01-01T00:00:00Z", "2025-05-14T00:00:00Z", "", "2071-06-01T00:00:00Z", "9999-12-31T23:59:59Z"}
 
 // QeIdentityDoc describes a QE Identity document.
 type QeIdentityDoc struct {
